@@ -42,12 +42,20 @@ LOOKUP = [
 def api_name(path):
     """griddle::map::HashMap::<K, V, S>::insert -> HashMap::insert ; <map::HashMap<..> as core::ops::Index<&Q>>::index -> HashMap::Index::index"""
     # (the defining module is not part of an API name: `griddle::map::entry::Entry::<..>::insert` is still Entry::insert)
-    m = re.match(r"^griddle::(?:\w+::)*?(\w+)::<.*>::(\w+)$", path)
+    m = re.match(r"^griddle::(?:\w+::)*?(\w+)::<(?!impl ).*>::(\w+)$", path)
     if m and not path.startswith("griddle::external_trait_impls::"):
         return "%s::%s" % (m.group(1), m.group(2))
     m = re.match(r"^griddle::<(?:&'?\w* ?(?:mut )?)?(?:\w+::)*(\w+)<.*> as ([\w:]+?)(?:<.*>)?>::(\w+)$", path)
     if m:
         return "%s::%s::%s" % (m.group(1), m.group(2).split("::")[-1], m.group(3))
+    # impl blocks placed in another module than the type they are for
+    if not path.startswith("griddle::external_trait_impls::"):
+        m = re.match(r"^griddle::(?:\w+::)*<impl ([\w:]+?)(?:<.*>)? for (?:&'?\w* ?(?:mut )?)?(?:\w+::)*(\w+)<.*>>::(\w+)$", path)
+        if m:
+            return "%s::%s::%s" % (m.group(2), m.group(1).split("::")[-1], m.group(3))
+        m = re.match(r"^griddle::(?:\w+::)*<impl (?:\w+::)*(\w+)<.*>>::(\w+)$", path)
+        if m and " for " not in path:
+            return "%s::%s" % (m.group(1), m.group(2))
     return None
 
 
